@@ -102,6 +102,7 @@ struct sop {
     uint64_t u1;        /* amounts */
     double d1;          /* durations */
     struct spred pred;
+    int repeat;         /* execute this op that many times (stress scenarios), 0 = once */
 };
 
 struct sproc {
@@ -693,7 +694,13 @@ static bool do_nonblocking(const struct sop *o, const int pid, const int opi, co
     }
     case OP_FILL_TO: {
         /* bring the event queue to exactly (i1 - i2) entries with far-future fillers */
-        const uint64_t want = (uint64_t)(o->i1 - o->i2);
+        uint64_t target = (uint64_t)o->i1;
+        if (target == 0u) {
+            /* the capacity the queue has now: the smallest power of two >= 8 that holds the count */
+            target = 8u;
+            while (target < cmb_event_queue_count()) target *= 2u;
+        }
+        const uint64_t want = target - (uint64_t)o->i2;
         uint64_t added = 0;
         while (cmb_event_queue_count() < want && added < 100000u) {
             (void)cmb_event_schedule(filler_action, NULL, NULL, 1.0e9 + (double)added, 0);
@@ -749,7 +756,9 @@ static void *proc_main(struct cmb_process *me, void *ctx)
     tr("B %" PRIu64 " %" PRIu64 " %a %d %d self=%d ctx=%d\n", ++seqno, evno, cmb_time(), pid, sp->runs,
        me == sp->p ? 1 : 0, cmb_process_context(me) == ctx ? 1 : 0);
 
-    for (sp->pc = 0; sp->pc < sp->nops; sp->pc++) {
+    int reps_done = 0;
+    sp->pc = 0;
+    while (sp->pc < sp->nops) {
         const struct sop *o = &sp->ops[sp->pc];
         int64_t sig = 0;
 #define CALL() do { HDR('C', pid, sp->pc); tr(" %s", opnames[o->code]); } while (0)
@@ -889,7 +898,11 @@ static void *proc_main(struct cmb_process *me, void *ctx)
             (void)do_nonblocking(o, pid, sp->pc, 'C');
             break;
         }
-next_op: ;
+next_op:
+        /* stay on this op until it has been executed o->repeat times */
+        if (o->repeat > 1 && ++reps_done < o->repeat) continue;
+        reps_done = 0;
+        sp->pc++;
     }
     tr("Z %" PRIu64 " %" PRIu64 " %a %d return 0\n", ++seqno, evno, cmb_time(), pid);
     return NULL;
@@ -913,9 +926,17 @@ static int parse_proc(const char *s)
 static int need_kind(const int obj, const enum okind kind) { return (obj >= 0 && objs[obj].kind == kind) ? 0 : -1; }
 
 /* parse "name args.." into *o; returns 0 or -1 */
-static int parse_op(char **tok, const int nt, struct sop *o)
+static int parse_op(char **tok, int nt, struct sop *o)
 {
+    int repeat = 0;
+    if (nt >= 3 && strcmp(tok[0], "rep") == 0) {
+        repeat = (int)cimx_u64(tok[1]);
+        if (repeat < 1 || repeat > 100000) return -1;
+        tok += 2;
+        nt -= 2;
+    }
     memset(o, 0, sizeof *o);
+    o->repeat = repeat;
     o->obj = -1; o->tgt = -1;
     int code = -1;
     for (int k = 0; k < OP__COUNT; k++) if (strcmp(tok[0], opnames[k]) == 0) code = k;
